@@ -1,6 +1,9 @@
 package main
 
 import (
+	"unicode"
+	"os"
+	"os/exec"
 	"context"
 	"fmt"
 	"math"
@@ -344,6 +347,49 @@ func suiteStrFun(o *Out, thorough bool, seed int64) {
 			}
 			return v, err
 		}
+		// case mapping of every code point (simple upper / lower case mapping of each character, the others kept)
+		for base := rune(0); base < 0x110000; base += 2048 {
+			var sb strings.Builder
+			for c := base; c < base+2048; c++ {
+				if c >= 0xD800 && c <= 0xDFFF {
+					continue
+				}
+				sb.WriteRune(c)
+			}
+			txt := sb.String()
+			if txt == "" {
+				continue
+			}
+			nt := fmt.Sprintf("NOP\tcasemap\t%x", base)
+			o.Case(nt, "-", true)
+			for _, f := range []struct {
+				name string
+				m    func(rune) rune
+			}{{"upper", unicode.ToUpper}, {"lower", unicode.ToLower}} {
+				v, err := evalBig(f.name+"(s)", map[string]interface{}{"s": txt})
+				want := []rune(txt)
+				for i, c := range want {
+					want[i] = f.m(c)
+				}
+				got, _ := v.(string)
+				if err != nil || got != string(want) {
+					bad := ""
+					gr := []rune(got)
+					for i := range want {
+						if i >= len(gr) || gr[i] != want[i] {
+							bad = fmt.Sprintf("U+%04X maps to U+%04X, required U+%04X", []rune(txt)[i], func() rune {
+								if i < len(gr) {
+									return gr[i]
+								}
+								return -1
+							}(), want[i])
+							break
+						}
+					}
+					o.Fail(nt, fmt.Sprintf("%s does not map case on the block U+%04X..: %s %v", f.name, base, bad, err))
+				}
+			}
+		}
 		sizes := []int{255, 256, 4095, 4096, 65535, 65536, 65537, 1000000, 1000001, 1 << 20, 1<<20 + 1, 1<<20 + 2, 1<<20 + 7, 1500000, 1 << 21, 3000001}
 		if thorough {
 			sizes = append(sizes, 1<<24, 1<<24+3, 1<<25+1, 50000000)
@@ -388,6 +434,29 @@ func suiteStrFun(o *Out, thorough bool, seed int64) {
 						o.Fail(nt(c.f), fmt.Sprintf("%s on a string of length %d gave %v, %v; required %v", c.f, len(big), v, err, c.want))
 					}
 				}
+			}
+		}
+	}
+	// lower / upper / trim beyond ASCII against the model: letters with special mappings (digraphs with a title case,
+	// Georgian, Greek final sigma, dotted / dotless i, sharp s, Kelvin, Deseret), Unicode white space at the edges,
+	// bytes that are not valid UTF-8
+	{
+		pool := []string{"a", "Z", "\u00e9", "\u00c9", "\u00df", "\u00ff", "\u0130", "\u0131", "\u01c4", "\u01c5", "\u01c6", "\u01f2", "\u03c2", "\u03a3", "\u0416", "\u10d0", "\u1c90", "\u212a",
+			"\u1e9e", "\ufb01", "\U00010428", "\U00010400", "\u4e2d", "\ufffd", "\xff", "\xc3", "\xe2\x82", " ", "\t", "\u00a0", "\u0085", "\u2028", "\u3000", "\u1680", "\u200b", "\ufeff", "\u2003"}
+		for i := 0; i < 400 || (thorough && i < 20000); i++ {
+			var sb strings.Builder
+			for j := 0; j < 1+r.Intn(6); j++ {
+				sb.WriteString(pool[r.Intn(len(pool))])
+			}
+			data := wmap("s", ws(sb.String()))
+			for _, f := range []string{"upper(s)", "lower(s)", "trim(s)", "lower(upper(s)) == lower(s)", "len(trim(s))"} {
+				emitEval(o, f, 0, "-", data, true)
+			}
+		}
+		for _, c := range pool {
+			for _, d := range pool {
+				data := wmap("s", ws(c+d))
+				emitEval(o, "[upper(s), lower(s), trim(s)]", 0, "-", data, true)
 			}
 		}
 	}
@@ -467,6 +536,46 @@ func suiteNumFun(o *Out, thorough bool, seed int64) {
 		}
 		ev("toFloat(toString(" + a + ")) == " + a)
 		ev("~" + a)
+	}
+	// text to number: every text of up to 4 (5) symbols over the alphabet of numerals and their near misses;
+	// "a numeric string is that number, other text NaN" is judged by the model and, for the class, by a grammar here
+	{
+		syms := []string{"0", "5", "12", ".", "e", "E", "+", "-", " ", "x", "_", "Inf", "inity", "NaN", "n", ","}
+		k := 4
+		if thorough {
+			k = 5
+		}
+		numeral := regexp.MustCompile(`^[+-]?([0-9]+\.?[0-9]*|\.[0-9]+)([eE][+-]?[0-9]+)?$`)
+		infinite := regexp.MustCompile(`^[+-]?(?i:inf|infinity)$`)
+		enumSeq(len(syms), k, func(idx []int) {
+			var sb strings.Builder
+			for _, i := range idx {
+				sb.WriteString(syms[i])
+			}
+			txt := sb.String()
+			data := wmap("s", ws(txt))
+			got := resultOf(emitEval(o, "toFloat(s)", 0, "-", data, true))
+			ln := fmt.Sprintf("EV\t%s\t0\t-\t%s", hx([]byte("toFloat(s)")), data)
+			switch {
+			case numeral.MatchString(txt):
+				if !strings.HasPrefix(got, "V D") || got == "V Dnan" || strings.Contains(got, "inf") {
+					o.Fail(ln, fmt.Sprintf("toFloat(%q) is %s: a numeric string must give that number", txt, got))
+				}
+			case infinite.MatchString(txt):
+				if !strings.Contains(got, "inf") {
+					o.Fail(ln, fmt.Sprintf("toFloat(%q) is %s", txt, got))
+				}
+			default:
+				if got != "V Dnan" {
+					o.Fail(ln, fmt.Sprintf("toFloat(%q) is %s: text that is not a number must give NaN", txt, got))
+				}
+			}
+			if len(idx) <= 3 {
+				emitEval(o, "toInt(s)", 0, "-", data, true)
+				emitEval(o, "[s * 1, 2 + s, s - 0, finite(s)]", 0, "-", data, true)
+			}
+		})
+		o.Notes = append(o.Notes, fmt.Sprintf("exhaustive: toFloat of every text of up to %d symbols over a %d-symbol alphabet of numeral parts and near misses", k, len(syms)))
 	}
 	r := newRand(seed, "numfun")
 	n := 6000
@@ -709,6 +818,18 @@ func suiteDateFun(o *Out, thorough bool, seed int64) {
 			continue
 		}
 		lo, hi := float64(before.UnixMilli()), float64(after.UnixMilli())
+		if f == "millSecond(toDay())" {
+			// the model's toDay is a function of one clock reading: when the readings before and after the call fall
+			// on the same local day every reading in between gives the same result, which the model computes
+			src2, _ := formula.ParseSourceCode([]byte("toDay()"))
+			b2 := time.Now()
+			tv, _ := formula.NewRunner().Resolve(context.Background(), src2.Expression)
+			a2 := time.Now()
+			if tt, ok := tv.(time.Time); ok && b2.YearDay() == a2.YearDay() {
+				_, zoff := tt.Zone()
+				o.Case(fmt.Sprintf("TD\t%d\t%d", b2.UnixNano(), clockOff), fmt.Sprintf("%d:%d", tt.UnixNano(), zoff), true)
+			}
+		}
 		if strings.Contains(f, "toDay") {
 			mid := time.Date(before.Year(), before.Month(), before.Day(), 0, 0, 0, 0, time.Local)
 			if ms != float64(mid.UnixMilli()) && ms != float64(mid.AddDate(0, 0, 1).UnixMilli()) {
@@ -720,6 +841,78 @@ func suiteDateFun(o *Out, thorough bool, seed int64) {
 		o.Case(fmt.Sprintf("NOP\tclock\t%d:%s", clockOff, f), "-", true)
 	}
 	}
+	// toDay while the local clock rolls over a month end: the local zone is moved (not the clock) so that the next
+	// whole second is 00:00:00 on the first of a month; every toDay() evaluated across that instant must be
+	// midnight of the last day or of the first day - no other date was "today" during any call
+	rolls := 2
+	if thorough {
+		rolls = 25
+	}
+	rollSrc, _ := formula.ParseSourceCode([]byte("toDay()"))
+	savedLocal := time.Local
+	for round := 0; round < rolls; round++ {
+		start := time.Now()
+		boundary := start.Truncate(time.Second).Add(time.Second)
+		if boundary.Sub(start) < 30*time.Millisecond {
+			boundary = boundary.Add(time.Second)
+		}
+		u := boundary.UTC()
+		first := time.Date(u.Year(), u.Month(), 1, 0, 0, 0, 0, time.UTC)
+		if u.Day() > 15 {
+			first = time.Date(u.Year(), u.Month()+1, 1, 0, 0, 0, 0, time.UTC)
+		}
+		if round%2 == 1 { // a year end
+			first = time.Date(u.Year()+1, 1, 1, 0, 0, 0, 0, time.UTC)
+		}
+		zone := time.FixedZone("roll", int(first.Sub(u)/time.Second))
+		time.Local = zone
+		firstDay := time.Date(first.Year(), first.Month(), 1, 0, 0, 0, 0, zone)
+		lastDay := time.Date(first.Year(), first.Month(), 0, 0, 0, 0, 0, zone)
+		time.Sleep(time.Until(boundary) - 5*time.Millisecond)
+		var mu sync.Mutex
+		bad := ""
+		calls := 0
+		var wg sync.WaitGroup
+		for w := 0; w < 16; w++ {
+			wg.Add(1)
+			go func() {
+				defer wg.Done()
+				rn := formula.NewRunner()
+				n := 0
+				for time.Since(boundary) < 50*time.Millisecond {
+					v, err := rn.Resolve(context.Background(), rollSrc.Expression)
+					n++
+					got, ok := v.(time.Time)
+					if err != nil || !ok {
+						mu.Lock()
+						bad = fmt.Sprintf("toDay() failed: %v %v", v, err)
+						mu.Unlock()
+						break
+					}
+					if got.Equal(firstDay) {
+						break
+					}
+					if !got.Equal(lastDay) {
+						mu.Lock()
+						bad = fmt.Sprintf("toDay() = %s while the local clock went from %s 23:59:59 to %s 00:00:00", got.Format("2006-01-02 15:04:05"), lastDay.Format("2006-01-02"), firstDay.Format("2006-01-02"))
+						mu.Unlock()
+						break
+					}
+				}
+				mu.Lock()
+				calls += n
+				mu.Unlock()
+			}()
+		}
+		wg.Wait()
+		nt := fmt.Sprintf("NOP\tmidnight-roll\t%s", firstDay.Format("2006-01-02"))
+		o.Case(nt, "-", true)
+		o.Stats["midnight-roll-calls"] += calls
+		if bad != "" {
+			o.Fail(nt, bad)
+		}
+	}
+	time.Local = savedLocal
 	setLocal(0)
 }
 
@@ -780,8 +973,13 @@ var purityPool = []string{"(1 + 2) * 3", "a.b + c", "$x = a.b, $x * 2", "len(s) 
 	"regexp(s, '^h')", "replace(s, 'l', 'L')", "mid(s, 1, 3)", "abs(-c)", "ceil(1.2) + floor(-1.2)", "toInt('12') + toFloat('1.5')", "includes(['a'], 'a')",
 	"lpad('7', '0', 3)", "c ? 1 : 2", "2.5 * 2", "7.5 * 0.5", "roundBank(7.5) + roundBank(0.5)", "round(2.5)", "-c", "abs(c) + c", "$n = -c, c", "(a).b", "f(a...)", "null == x", "$y = 1, $y = $y + 1, $y", "weekDay(date(2000, 1, 1))"}
 
+var addrRe = regexp.MustCompile(`0x[0-9a-f]+`)
+
 func purityData(i int) map[string]interface{} {
 	f := func(a *decimal.Big, b string) (string, error) { return a.String() + b, nil }
+	if i == 3 {
+		return map[string]interface{}{"m": map[string]interface{}{"Key": 1, "key": "lower"}, "s": "hello"}
+	}
 	base := []map[string]interface{}{
 		{"a": map[string]interface{}{"b": 1}, "c": 2, "s": "hello", "f": f},
 		{"a": map[string]interface{}{"b": 1.5}, "c": 0, "s": "", "f": f},
@@ -837,6 +1035,103 @@ func suitePurity(o *Out, thorough bool, seed int64) {
 				ref[key] = res
 			}
 		}
+	}
+	// references from fresh processes: each formula of the pool, and "confusable" variants of its string arguments
+	// (other case, padded, truncated: what a cache with a normalised key would merge), is evaluated once in a
+	// process of its own; this process then evaluates canonical forms first, variants next, everything again in
+	// reverse, and must reproduce every fresh result
+	{
+		keyed := []string{"useTimezone(date(2024, 1, 2), 'UTC')", "useTimezone(date(2024, 1, 2), 'Asia/Tokyo')", "hour(useTimezone(date(2024, 6, 2), 'Europe/London'))",
+			"useTimezone(date(2024, 1, 2), 'America/New_York')", "regexp('Hello', '^h')", "regexp('hello', 'L+')", "timeFormat(date(2024, 1, 2), '2006-01-02')",
+			"timeFormat(date(2024, 1, 2), 'Jan _2 PM')", "toFloat('1E5')", "toFloat('Infinity')", "toInt('0x1F')", "replace('aAbB', 'a', 'x')", "find('aAbB', 'B')",
+			"contains('aAbB', 'ab')", "startWith('Hello', 'he')", "includes(['a', 'B'], 'b')", "join(['a', 'B'], 'X')", "lower('MiXed') + upper('MiXed')", "m.Key", "m.key"}
+		variants := func(text string) []string {
+			out := []string{}
+			parts := strings.Split(text, "'")
+			for i := 1; i < len(parts); i += 2 {
+				lit := parts[i]
+				for _, v := range []string{strings.ToLower(lit), strings.ToUpper(lit), lit + " ", " " + lit, strings.Title(strings.ToLower(lit)), lit[:len(lit)/2+1]} {
+					if v != lit {
+						p2 := append([]string{}, parts...)
+						p2[i] = v
+						out = append(out, strings.Join(p2, "'"))
+					}
+				}
+			}
+			return out
+		}
+		type job struct {
+			text string
+			di   int
+			canon bool
+		}
+		var jobs []job
+		seen := map[string]bool{}
+		add := func(t string, di int, canon bool) {
+			k := fmt.Sprint(di) + ":" + t
+			if !seen[k] && !strings.Contains(t, "now(") && !strings.Contains(t, "toDay(") {
+				seen[k] = true
+				jobs = append(jobs, job{t, di, canon})
+			}
+		}
+		for _, t := range purityPool {
+			for di := 0; di < 3; di++ {
+				add(t, di, true)
+			}
+		}
+		for _, t := range keyed {
+			add(t, 3, true)
+		}
+		nc := len(jobs)
+		for _, j := range jobs[:nc] {
+			if j.di == 0 || j.di == 3 {
+				for _, v := range variants(j.text) {
+					add(v, j.di, false)
+				}
+			}
+		}
+		fresh := make([]string, len(jobs))
+		var wg sync.WaitGroup
+		sem := make(chan struct{}, 16)
+		for i := range jobs {
+			wg.Add(1)
+			sem <- struct{}{}
+			go func(i int) {
+				defer wg.Done()
+				defer func() { <-sem }()
+				out, err := exec.Command(os.Args[0], "fresh", fmt.Sprint(jobs[i].di), hx([]byte(jobs[i].text))).Output()
+				if err != nil {
+					fresh[i] = "CHILD-FAILED:" + err.Error()
+				} else {
+					fresh[i] = strings.TrimRight(string(out), "\n")
+				}
+			}(i)
+		}
+		wg.Wait()
+		canonRes := func(s string) string { return addrRe.ReplaceAllString(s, "0x") }
+		order := []int{}
+		for i := range jobs {
+			order = append(order, i)
+		}
+		for i := len(jobs) - 1; i >= 0; i-- {
+			order = append(order, i)
+		}
+		for k := 0; k < len(jobs); k++ {
+			order = append(order, r.Intn(len(jobs)))
+		}
+		for _, i := range order {
+			j := jobs[i]
+			line := fmt.Sprintf("NOP\tfresh\t%d:%s", j.di, hx([]byte(j.text)))
+			o.Case(line, "-", true)
+			if strings.HasPrefix(fresh[i], "CHILD-FAILED") {
+				o.Fail(line, "the fresh-process evaluation failed: "+fresh[i])
+				continue
+			}
+			if got := evalOnce(j.text, j.di); canonRes(got) != canonRes(fresh[i]) {
+				o.Fail(line, fmt.Sprintf("%q evaluates to %s in a fresh process and to %s after other formulas were evaluated in this one", j.text, fresh[i], got))
+			}
+		}
+		o.Stat(fmt.Sprintf("fresh-process references: %d (%d canonical, %d variants)", len(jobs), nc, len(jobs)-nc))
 	}
 	n := 1500
 	if thorough {
